@@ -427,7 +427,32 @@ macro_rules! impl_scope_ops {
                 }
             }
         }
-        fn shrink(&self, addr: usize, old: Layout, new: Layout, wrap: Wrap, _via: &str) -> AllocRes {
+        fn shrink(&self, addr: usize, old: Layout, new: Layout, wrap: Wrap, via: &str) -> AllocRes {
+            // typed entry point: BumpAllocatorTyped::shrink_slice::<T> (what BumpVec::shrink_to_fit / into_boxed_slice use)
+            if via == "typed" && wrap == Wrap::None && old.align() == new.align() && old.size() % old.align() == 0
+                && new.size() % new.align() == 0 && new.size() > 0
+            {
+                let al = old.align();
+                macro_rules! go {
+                    ($t:ty) => {{
+                        let r = unsafe { self.shrink_slice::<$t>(p(addr).cast::<$t>(), old.size() / al, new.size() / al) };
+                        return Ok(match r {
+                            Some(np) => (v(np.cast::<u8>()), new.size()),
+                            None => (addr, old.size()), // unchanged: the caller keeps the old capacity
+                        });
+                    }};
+                }
+                match al {
+                    1 => go!(u8),
+                    2 => go!(u16),
+                    4 => go!(u32),
+                    8 => go!(u64),
+                    16 => go!(u128),
+                    32 => go!(A32),
+                    64 => go!(A64),
+                    _ => {}
+                }
+            }
             unsafe { with_wrap!(self, wrap, |a| vres(Allocator::shrink(a, p(addr), old, new))) }
         }
         fn reserve(&self, n: usize, via: &str) -> Result<(), ()> {
